@@ -24,6 +24,7 @@ import (
 	"strconv"
 	"sync"
 	"sync/atomic"
+	"syscall"
 	"time"
 )
 
@@ -110,6 +111,9 @@ func Start(prop, level string) *Run {
 	if s := os.Getenv("VERIF_SEED"); s != "" {
 		r.Seed, _ = strconv.ParseInt(s, 10, 64)
 	}
+	if free, ok := scratchFree(); ok && free < 1<<30 && os.Getenv("VERIF_SHARD") == "" {
+		r.Fatal("scratch file system /dev/shm has only %d MiB free: checks need up to 1 GiB of scratch space", free>>20)
+	}
 	r.loadFindings()
 	// last-resort watchdog: a check that is still running long after its internal budget (code under
 	// test that never returns) ends as a harness error (exit 2, no verdict) instead of hanging forever
@@ -153,14 +157,14 @@ func (r *Run) Thorough() bool { return r.Tier == "thorough" }
 // Expired reports whether the internal budget is used up (caller stops, marks non-exhaustive).
 func (r *Run) Expired() bool { return time.Since(r.start) > r.Budget }
 
-func (r *Run) Eval(n int)        { r.evals.Add(int64(n)) }
-func (r *Run) Evals() int64      { return r.evals.Load() }
-func (r *Run) State(n int)       { r.states.Add(int64(n)) }
-func (r *Run) Transition(n int)  { r.transitions.Add(int64(n)) }
-func (r *Run) TraceOK(n int)     { r.traces.Add(int64(n)) }
-func (r *Run) Rule(s string)     { r.rule = s }
+func (r *Run) Eval(n int)         { r.evals.Add(int64(n)) }
+func (r *Run) Evals() int64       { return r.evals.Load() }
+func (r *Run) State(n int)        { r.states.Add(int64(n)) }
+func (r *Run) Transition(n int)   { r.transitions.Add(int64(n)) }
+func (r *Run) TraceOK(n int)      { r.traces.Add(int64(n)) }
+func (r *Run) Rule(s string)      { r.rule = s }
 func (r *Run) Assume(s ...string) { r.assumptions = append(r.assumptions, s...) }
-func (r *Run) Exhaustive(b bool) { r.exhaustive = &b }
+func (r *Run) Exhaustive(b bool)  { r.exhaustive = &b }
 func (r *Run) Set(k string, v any) {
 	r.mu.Lock()
 	r.extra[k] = v
@@ -251,7 +255,23 @@ func (r *Run) LoadReplay(into any) {
 	}
 }
 
+// scratchFree returns the free bytes of the scratch file system every check works on (/dev/shm).
+func scratchFree() (uint64, bool) {
+	var st syscall.Statfs_t
+	if err := syscall.Statfs("/dev/shm", &st); err != nil {
+		return 0, false
+	}
+	return st.Bavail * uint64(st.Bsize), true
+}
+
 func (r *Run) Finish() {
+	// a scratch file system that ran full makes writes of the code under test fail for reasons that
+	// have nothing to do with it: no verdict is given then
+	if r.Replay == "" {
+		if free, ok := scratchFree(); ok && free < 256<<20 {
+			r.Fatal("scratch file system /dev/shm is (nearly) full (%d MiB free): the run cannot be judged", free>>20)
+		}
+	}
 	r.mu.Lock()
 	cov := map[string]any{}
 	for k, v := range r.extra {
